@@ -4,8 +4,9 @@ i = s.index('### 12.5 Which check catches which seeded change')
 table = open('/tmp/seedtable.md').read()
 new = '''### 12.5 Which check catches which seeded change
 
-Eighty changes were written by sub-agents that saw only the text of one property and their own scratch worktree: two per property in a first round (A, B) and two more
-in a second round (C, D), for which the agents were additionally told one line about each first-round change so as not to repeat it. Each change was confirmed here
+118 changes were written by sub-agents that saw only the text of one property and their own scratch worktree: two per property in a first round (A, B), two more
+in a second round (C, D) and two more in a third (E, F; 19 properties, C12's worktree being busy with a 40-minute demonstration at the time); from the second round on the agents were additionally told one line
+about each earlier change for their property so as not to repeat it. Each change was confirmed here
 (`tools/seedconfirm.sh`: builds, whole existing suite passes, the agent's demonstration fails with the change and passes without) and kept under
 `seeded/<id>/` (`patch.diff`, demonstration, `NOTES.agent.md`, `confirm.log`, `check.out`, `meta.json`). The checks were run against each with
 `VERIF_REPO=<scratch worktree with the patch>` (same build path as `/repo`, which stays clean). With the machinery as committed, the quick tier of the property
@@ -50,6 +51,21 @@ What each missed (or nearly missed) change led to:
 | C19-C (timer callback no longer re-checks the calm) | (strengthened first) | lock-interleaving scenario "muted, timer fires, chunk arrives": a suppressed chunk and an un-mute at the same instant is a violation |
 | C19-D (Ctrl+J preview written as plain output) | (strengthened first) | Ctrl+J as a seventh event of the alphabet |
 | C20-C (`CreateTemp` error used before checked) | (strengthened first) | fault "cache directory exists but takes no files" (`/proc/sys/kernel/...`) |
+| C01-F (`new(struct{})` as the per-request marker: every `/io` request carries the same one) | missed by C01 (C06 reports it) | two `/io` requests in C01's mixed profile |
+| C03-E (a keep-alive newline written to the `/o` response every 15 s: net/http starts discarding the unread request body) | missed | **quiet-spell scenarios**: a second build with every `time` import of `internal/hsrv` and `internal/iobroker` redirected to the virtual clock; after 1 s / 20 s / 2 min / 20 min of quiet (every due timer fired in order) output and input must still flow exactly (`quietspell.go`) |
+| C03-F (`handleOutput` drops a line equal to the previous one within 1 s, shell output included) | missed | a chunk that repeats byte for byte in the terminal seam's alphabet |
+| C04-E (notices to the operator sent non-blocking) | missed | cumulative notice oracle for the stalled-terminal profile (unbuffered operator channel): once a Connect call has returned, its closure / ready / gone notices must have been handed over |
+| C04-F (input proxy spins on a closed operator channel) | `program-crashed/quiesce: world does not settle` | (kept: a goroutine that never blocks again is reported with the stack dump) |
+| C05-E (script rendered into a buffer shared between requests) | missed | 16 clients requesting scripts at once, each with a callback address of its own length; both pins and the address of every script are checked (C05 and C07; a sampling complement) |
+| C07-E (a template file missing at start-up is replaced by the default for good) | (strengthened first) | template file states at start-up (good / missing / unparsable) in the template histories |
+| C09-F (single-file mode serves from one cached descriptor) | (strengthened first) | a 3 MiB single file fetched by 8 clients at once, three rounds, then replaced (rename) and fetched again |
+| C10-F (net/http's "Server error" line used as a format) | missed | plaintext and a broken handshake sent to the TLS port from a zoned link-local client |
+| C11-E (an already-cancelled request context returns silently) | caught (`refusal-record/...`) | - |
+| C13-E (key hashes cached by issuer + serial number) | missed | server I: a copy of A's certificate (subject, issuer, serial, validity) around another key |
+| C15-F (fixed 45-byte line buffer in the decoder) | missed | every length character 0x20..0xff with a data part of exactly the matching size, three contents, alone and after a full line |
+| C18-E (TABDOC lines collected per source instead of from the payload) | missed | **`Converter.From` seam**: every sequence of <= 3 sources (with / without filter, with / without final newline, directory), listing appended by `From` itself, rows compared with the TABDOC lines of the payload it was appended to |
+| C19-E (undecorated status lines take the shell-output path) | missed | status lines in four dresses (coloured / plain, with / without timestamp, with / without trailing newline), chosen by position |
+| C20-E (only the tty's descriptor number is kept: a finalizer closes the file, the terminal stays raw) | missed | every exit and every single start-up fault also with `GOGC=1` (the collector and finalizers running all the time) |
 
 **C12-D** moves the registration of the server's event listener into the watcher goroutine, after HTTP is being served; it needs the broker to be busy delivering an earlier event to
 another slow listener at start-up. The in-process scenario `c12BusyBroker` reproduces that set-up; its result for this change is recorded in `seeded/C12-D/check.out` (the agent's own
